@@ -386,4 +386,696 @@ theorem query_check_eq (q : List (List Char)) : q.any keyRejected = !q.all suppo
   | nil => rfl
   | cons k ks ih => simp [List.any_cons, List.all_cons, ih, keyRejected_eq, Bool.not_and]
 
+/-! ## C. `complete` -/
+
+/-- The standard links of relationship `name` of resource `id`. -/
+def stdLinks (id : RId) (name : String) : Links :=
+  [("self", "/" ++ id.type ++ "/" ++ id.id ++ "/relationships/" ++ name),
+   ("related", "/" ++ id.type ++ "/" ++ id.id ++ "/" ++ name)]
+
+theorem resolveRelationship_links (d : RelDef) (b : Bool) (rel : Relationship)
+    (h : resolveRelationship d b = .ok rel) : rel.links = [] := by
+  unfold resolveRelationship at h
+  split at h <;> (split at h) <;> (try split at h) <;> simp_all <;> (subst h; rfl)
+
+theorem completeAttrs_spec (as : List (String × AttrOut)) :
+    match as.findSome? attrError with
+    | some e => completeAttrs as = .error e
+    | none => ∃ l, completeAttrs as = .ok l ∧
+        l.all (fun a => a.2) = !(as.any (fun a => a.2 == .unmarshalable)) := by
+  induction as with
+  | nil => exact ⟨[], rfl, rfl⟩
+  | cons a rest ih =>
+    obtain ⟨name, out⟩ := a
+    cases out with
+    | error e => simp [List.findSome?_cons, attrError, completeAttrs]
+    | value =>
+      simp only [List.findSome?_cons, attrError, completeAttrs]
+      split at ih
+      · rename_i e he; simp [he, ih, Except.map]
+      · rename_i he
+        obtain ⟨l, hl, hall⟩ := ih
+        simp [he, hl, Except.map, hall]
+    | unmarshalable =>
+      simp only [List.findSome?_cons, attrError, completeAttrs]
+      split at ih
+      · rename_i e he; simp [he, ih, Except.map]
+      · rename_i he
+        obtain ⟨l, hl, hall⟩ := ih
+        simp [he, hl, Except.map]
+
+theorem resolve_default_error (d : RelDef) (name : String) :
+    match defaultRelError (name, d) with
+    | some e => resolveRelationship d false = .error e
+    | none => ∃ rel, resolveRelationship d false = .ok rel := by
+  cases d with
+  | toOne b out => cases b <;> cases out <;> simp [defaultRelError, resolveRelationship]
+  | toMany b out a r => cases b <;> cases out <;> simp [defaultRelError, resolveRelationship]
+
+theorem completeRels_spec (id : RId) (rels : List (String × RelDef)) :
+    match rels.findSome? defaultRelError with
+    | some e => completeRels id rels = .error e
+    | none => ∃ l, completeRels id rels = .ok l ∧
+        ∀ p ∈ l, p.2.links = stdLinks id p.1 := by
+  induction rels with
+  | nil => exact ⟨[], rfl, by simp⟩
+  | cons a rest ih =>
+    obtain ⟨name, d⟩ := a
+    have hd := resolve_default_error d name
+    simp only [List.findSome?_cons, completeRels]
+    split at hd
+    · rename_i e he; simp [he, hd]
+    · rename_i he
+      obtain ⟨rel, hrel⟩ := hd
+      have hl := resolveRelationship_links d false rel hrel
+      simp only [he, hrel]
+      split at ih
+      · rename_i e he'; simp [he', ih, Except.map]
+      · rename_i he'
+        obtain ⟨l, hl', hall⟩ := ih
+        simp only [he']
+        refine ⟨(name, addStandardRelationshipLinks id name rel) :: l, by simp [hl', Except.map], ?_⟩
+        intro p hp
+        rcases List.mem_cons.mp hp with rfl | hp
+        · simp [addStandardRelationshipLinks, stdLinks, hl]
+        · exact hall p hp
+
+/-- What `complete` yields, in terms of the specification's `completionError`. -/
+theorem complete_spec (t : TypeDef) (id : RId) :
+    match completionError t with
+    | some e => t.complete id = .error e
+    | none => ∃ res, t.complete id = .ok (some res) ∧ res.type = id.type ∧ res.id = id.id ∧
+        res.marshalable = !hasUnmarshalable t ∧ ∀ p ∈ res.rels, p.2.links = stdLinks id p.1 := by
+  have ha := completeAttrs_spec t.attrs
+  have hr := completeRels_spec id t.rels
+  unfold completionError TypeDef.complete
+  split at ha
+  · rename_i e he; simp [he, ha]
+  · rename_i he
+    obtain ⟨as, has, hall⟩ := ha
+    simp only [he, has]
+    split at hr
+    · rename_i e he'; simp [hr]
+    · rename_i he'
+      obtain ⟨rs, hrs, hlinks⟩ := hr
+      simp only [hrs]
+      exact ⟨_, rfl, rfl, rfl, by simp [Resource.marshalable, hall, hasUnmarshalable], hlinks⟩
+
+/-! ## D. The status `ServeHTTP` derives from a router response -/
+
+/-- The status `ServeHTTP` hands to `WriteHeader` for a router response. -/
+def Response.rawStatus (resp : Response) : Nat :=
+  if resp.doc.marshalable then
+    if resp.doc.errors.length > 0 then statusOfErrors resp.doc.errors
+    else if resp.status != 0 then resp.status else 200
+  else 500
+
+theorem serveHTTP_eq (s : Schema) (r : Req) :
+    serveHTTP s r =
+      if (executeRequest s r).doc.marshalable then
+        if (executeRequest s r).rawStatus < 100 || (executeRequest s r).rawStatus > 999 then .panic
+        else .wrote (executeRequest s r).rawStatus contentType (executeRequest s r).headers
+          { (executeRequest s r).doc with jsonapi := some jsonApiVersion }
+      else .wrote 500 contentType [] { errors := [errorForHTTPStatus 500], jsonapi := some jsonApiVersion } := by
+  unfold serveHTTP Response.rawStatus
+  simp only [Doc.marshalable]
+  split <;> simp_all
+
+theorem statusOfErrors_single (e : Err) : statusOfErrors [e] = errStatus e := by
+  unfold statusOfErrors errStatus
+  cases e.status <;> simp [statusOfErrors]
+
+theorem rawStatus_err (e : Err) : (errResponse e).rawStatus = errStatus e := by
+  simp [Response.rawStatus, errResponse, errDoc, Doc.marshalable, statusOfErrors_single]
+
+theorem rawStatus_status (n : Nat) : (statusResponse n).rawStatus = n := by
+  simp [statusResponse, rawStatus_err, errStatus, errorForHTTPStatus]
+
+theorem rawStatus_errDoc (e : Err) : ({ doc := errDoc e } : Response).rawStatus = errStatus e :=
+  rawStatus_err e
+
+theorem rawStatus_resource (res : Resource) (links : Links) (hs : List (String × String)) (st : Nat) :
+    ({ doc := { data := some (.resource res), links := links }, headers := hs, status := st } : Response).rawStatus
+      = if res.marshalable then (if st != 0 then st else 200) else 500 := by
+  simp [Response.rawStatus, Doc.marshalable]
+
+theorem rawStatus_linkage (l : Option Linkage) (links : Links) :
+    ({ doc := { data := l.map Data.linkage, links := links } } : Response).rawStatus = 200 := by
+  cases l <;> simp [Response.rawStatus, Doc.marshalable]
+
+theorem rid_ne_iff (a b : RId) : (a.type != b.type || a.id != b.id) = true ↔ a ≠ b := by
+  obtain ⟨at_, ai⟩ := a
+  obtain ⟨bt, bi⟩ := b
+  simp only [bne_iff_ne, Bool.or_eq_true, ne_eq, RId.mk.injEq, not_and]
+  constructor
+  · rintro (h | h) <;> intro h' <;> simp_all
+  · intro h
+    by_cases h1 : at_ = bt
+    · right; exact h h1
+    · left; exact h1
+
+/-! ## E. Every route against `Spec.opStatus` -/
+
+def NF : Response := statusResponse 404
+
+theorem rawStatus_NF : NF.rawStatus = 404 := rawStatus_status 404
+
+/-- A route that runs handler `h` and answers with the completed resource. -/
+theorem via_status (t : TypeDef) (h : Option (String → ResOut)) (id : RId) (mk : Resource → Response)
+    (hmk : ∀ res, (mk res).rawStatus = if res.marshalable then 200 else 500) :
+    ((match t.viaHandler h id with
+      | .error e => some (errResponse e)
+      | .ok (some res) => some (mk res)
+      | .ok none => none).getD NF).rawStatus = Spec.viaHandler t h id.id := by
+  unfold TypeDef.viaHandler Spec.viaHandler
+  cases h with
+  | none => simp [rawStatus_err, errStatus, errorForHTTPStatus]
+  | some f =>
+    simp only
+    cases hf : f id.id with
+    | error e => simp [rawStatus_err]
+    | nil => simp [rawStatus_NF]
+    | found =>
+      simp only
+      have hc := complete_spec t id
+      unfold sendResource
+      split at hc
+      · rename_i e he; simp [hc, rawStatus_err, he]
+      · rename_i he
+        obtain ⟨res, hres, _, _, hm, _⟩ := hc
+        simp only [hres, Option.getD_some, hmk, hm, he]
+        cases hasUnmarshalable t <;> simp
+
+theorem patch_status (r : Req) (t : TypeDef) (id : RId) :
+    (((handlePatchResourceRequest r t id).map (fun d => ({ doc := d } : Response))).getD NF).rawStatus =
+      resourceBody r.body id (Spec.viaHandler t t.patch id.id) := by
+  unfold handlePatchResourceRequest resourceBody
+  cases hb : r.body.patchRes with
+  | none => simp [rawStatus_errDoc, errStatus, errorForHTTPStatus]
+  | some b =>
+    simp only
+    by_cases hne : b ≠ id
+    · have := (rid_ne_iff b id).mpr hne
+      simp [this, hne, rawStatus_errDoc, errStatus, errorForHTTPStatus]
+    · have hne' : ¬ ((b.type != id.type || b.id != id.id) = true) := fun h => hne ((rid_ne_iff b id).mp h)
+      simp only [hne', hne, if_false]
+      have := via_status t t.patch id
+        (fun res => { doc := { data := some (.resource res), links := [("self", r.urlPath)] } })
+        (fun res => by rw [rawStatus_resource]; simp)
+      rw [← this]
+      unfold TypeDef.patchRes
+      cases t.viaHandler t.patch id with
+      | error e => simp [errResponse]
+      | ok o => cases o <;> simp
+
+theorem resolve_requested (d : RelDef) :
+    resolveRelationship d true = (requestedLinkage d).map (fun l => ({ data := some l } : Relationship)) := by
+  cases d with
+  | toOne b out => cases out <;> simp [resolveRelationship, requestedLinkage, Except.map]
+  | toMany b out a r => cases out <;> simp [resolveRelationship, requestedLinkage, Except.map]
+
+theorem completeRelationship_cases (t : TypeDef) (id : RId) (name : String) :
+    t.completeRelationship id name =
+      match t.rels.lookup name with
+      | none => .ok none
+      | some d =>
+        match requestedLinkage d with
+        | .error e => .error e
+        | .ok l => .ok (some { links := stdLinks id name, data := some l }) := by
+  unfold TypeDef.completeRelationship
+  cases t.rels.lookup name with
+  | none => rfl
+  | some d =>
+    simp only [resolve_requested]
+    cases requestedLinkage d <;> simp [Except.map, addStandardRelationshipLinks, stdLinks]
+
+/-- A relationship route that locates the relationship through handler `h` (Get or Patch). -/
+theorem locate_status (t : TypeDef) (h : Option (String → ResOut)) (id : RId) (name : String) :
+    ((relationshipAnswer
+        (match h with
+         | none => .error (errorForHTTPStatus 405)
+         | some g =>
+           match g id.id with
+           | .error e => .error e
+           | .nil => .ok none
+           | .found => t.completeRelationship id name)).getD NF).rawStatus =
+      withRelationship t h id.id name linkageStatus := by
+  unfold withRelationship relationshipAnswer
+  cases h with
+  | none => simp [rawStatus_err, errStatus, errorForHTTPStatus]
+  | some g =>
+    simp only
+    cases g id.id with
+    | error e => simp [rawStatus_err]
+    | nil => simp [rawStatus_NF]
+    | found =>
+      simp only [completeRelationship_cases]
+      cases t.rels.lookup name with
+      | none => simp [rawStatus_NF]
+      | some d =>
+        simp only [linkageStatus]
+        cases requestedLinkage d with
+        | error e => simp [rawStatus_err]
+        | ok l => simpa using rawStatus_linkage (some l) (stdLinks id name)
+
+theorem members_status (op : RelDef → Except Err Relationship) (sel : RelDef → Nat)
+    (hop : ∀ d, match op d with
+      | .error e => sel d = errStatus e
+      | .ok _ => sel d = 200)
+    (t : TypeDef) (id : RId) (name : String) :
+    ((relationshipAnswer (t.changeMembers op id name)).getD NF).rawStatus =
+      withRelationship t t.get id.id name sel := by
+  unfold withRelationship relationshipAnswer TypeDef.changeMembers
+  cases t.get with
+  | none => simp [rawStatus_err, errStatus, errorForHTTPStatus]
+  | some g =>
+    simp only
+    cases g id.id with
+    | error e => simp [rawStatus_err]
+    | nil => simp [rawStatus_NF]
+    | found =>
+      simp only
+      cases t.rels.lookup name with
+      | none => simp [rawStatus_NF]
+      | some d =>
+        have := hop d
+        simp only
+        cases hd : op d with
+        | error e => simp [hd] at this; simp [rawStatus_err, this]
+        | ok rel => simp [hd] at this; simp [rawStatus_linkage, this]
+
+theorem membersResult_status (h : Option ManyOut) :
+    match membersResult h with
+    | .error e => membersStatus h = errStatus e
+    | .ok _ => membersStatus h = 200 := by
+  cases h with
+  | none => simp [membersResult, membersStatus, errStatus, errorForHTTPStatus]
+  | some o => cases o <;> simp [membersResult, membersStatus]
+
+/-- Marshalability of primary data. -/
+def Data.marshalable : Data → Bool
+  | .resource r => r.marshalable
+  | .resources rs => rs.all Resource.marshalable
+  | _ => true
+
+theorem rawStatus_data (d : Data) (links : Links) :
+    ({ doc := { data := some d, links := links } } : Response).rawStatus = if d.marshalable then 200 else 500 := by
+  cases d with
+  | null => simp [Response.rawStatus, Doc.marshalable, Data.marshalable]
+  | linkage l => simp [Response.rawStatus, Doc.marshalable, Data.marshalable]
+  | resource r => cases h : r.marshalable <;> simp [Response.rawStatus, Doc.marshalable, Data.marshalable, h]
+  | resources rs =>
+    cases h : rs.all Resource.marshalable <;> simp [Response.rawStatus, Doc.marshalable, Data.marshalable, h]
+
+/-- `get` of a related resource against `relatedFailure` / `relatedUnmarshalable`. -/
+theorem getRes_related (s : Schema) (rid : RId) (t : TypeDef) (ht : s.lookup rid.type = some t) :
+    match t.getRes rid with
+    | .error e => relatedFailure s rid = some (errStatus e)
+    | .ok none => relatedFailure s rid = none ∧ relatedUnmarshalable s rid = false
+    | .ok (some res) => relatedFailure s rid = none ∧ res.marshalable = !relatedUnmarshalable s rid := by
+  unfold TypeDef.getRes TypeDef.viaHandler relatedFailure relatedUnmarshalable
+  simp only [ht]
+  cases t.get with
+  | none => simp [errStatus, errorForHTTPStatus]
+  | some g =>
+    simp only
+    cases hg : g rid.id with
+    | error e => simp
+    | nil => simp
+    | found =>
+      simp only
+      have hc := complete_spec t rid
+      split at hc
+      · rename_i e he; simp [hc, he]
+      · rename_i he
+        obtain ⟨res, hres, _, _, hm, _⟩ := hc
+        simp [hres, he, hm]
+
+theorem getResource_spec (s : Schema) (rid : RId) :
+    match getResource s rid with
+    | .error e => relatedFailure s rid = some (errStatus e)
+    | .ok d => relatedFailure s rid = none ∧ d.marshalable = !relatedUnmarshalable s rid := by
+  unfold getResource
+  cases ht : s.lookup rid.type with
+  | none => simp [relatedFailure, relatedUnmarshalable, ht, Data.marshalable]
+  | some t =>
+    simp only
+    have := getRes_related s rid t ht
+    cases hg : t.getRes rid with
+    | error e => simpa [hg] using this
+    | ok o =>
+      cases o with
+      | none => simp [hg] at this; simp [this, Data.marshalable]
+      | some res => simp [hg] at this; simp [this, Data.marshalable]
+
+theorem getResourcesList_spec (s : Schema) (ids : List RId) :
+    match getResourcesList s ids with
+    | .error e => ids.findSome? (relatedFailure s) = some (errStatus e)
+    | .ok l => ids.findSome? (relatedFailure s) = none ∧
+        l.all Resource.marshalable = !ids.any (relatedUnmarshalable s) := by
+  induction ids with
+  | nil => simp [getResourcesList]
+  | cons rid rest ih =>
+    unfold getResourcesList
+    cases ht : s.lookup rid.type with
+    | none =>
+      have h1 : relatedFailure s rid = none := by simp [relatedFailure, ht]
+      have h2 : relatedUnmarshalable s rid = false := by simp [relatedUnmarshalable, ht]
+      simp only [List.findSome?_cons, h1, List.any_cons, h2, Bool.false_or]
+      exact ih
+    | some t =>
+      simp only
+      have := getRes_related s rid t ht
+      cases hg : t.getRes rid with
+      | error e => simp only [hg] at this; simp only [List.findSome?_cons, this]
+      | ok o =>
+        cases o with
+        | none =>
+          simp only [hg] at this
+          simp only [List.findSome?_cons, this.1, List.any_cons, this.2, Bool.false_or]
+          exact ih
+        | some res =>
+          simp only [hg] at this
+          simp only [List.findSome?_cons, this.1, List.any_cons]
+          cases hl : getResourcesList s rest with
+          | error e => simp only [hl] at ih; simp only [Except.map, ih]
+          | ok l =>
+            simp only [hl] at ih
+            simp only [Except.map, ih.1, List.all_cons, ih.2, this.2, Bool.not_or, and_self]
+
+theorem getResources_spec (s : Schema) (ids : List RId) :
+    match getResources s ids with
+    | .error e => ids.findSome? (relatedFailure s) = some (errStatus e)
+    | .ok d => ids.findSome? (relatedFailure s) = none ∧
+        d.marshalable = !ids.any (relatedUnmarshalable s) := by
+  unfold getResources
+  have := getResourcesList_spec s ids
+  cases hl : getResourcesList s ids with
+  | error e => simpa [hl] using this
+  | ok l =>
+    simp only [hl] at this
+    cases l with
+    | nil => simpa [Data.marshalable] using this
+    | cons r rs => simp only [Data.marshalable]; exact this
+
+/-- GET on the related-resource route. -/
+theorem fetchRelated_status (s : Schema) (r : Req) (t : TypeDef) (id : RId) (name : String)
+    (hm : (r.method == "GET") = true) :
+    ((relatedRoute s r t id name).getD NF).rawStatus =
+      withRelationship t t.get id.id name (fetchRelatedStatus s) := by
+  unfold relatedRoute withRelationship TypeDef.getRelationship
+  simp only [hm, if_true]
+  cases t.get with
+  | none => simp [rawStatus_err, errStatus, errorForHTTPStatus]
+  | some g =>
+    simp only
+    cases g id.id with
+    | error e => simp [rawStatus_err]
+    | nil => simp [rawStatus_NF]
+    | found =>
+      simp only [completeRelationship_cases]
+      cases t.rels.lookup name with
+      | none => simp [rawStatus_NF]
+      | some d =>
+        simp only [fetchRelatedStatus]
+        cases requestedLinkage d with
+        | error e => simp [rawStatus_err]
+        | ok l =>
+          cases l with
+          | null => simp [rawStatus_data, Data.marshalable]
+          | one rid =>
+            simp only
+            have := getResource_spec s rid
+            cases hg : getResource s rid with
+            | error e => simp only [hg] at this; simp [rawStatus_err, this]
+            | ok d =>
+              simp only [hg] at this
+              simp only [Option.getD_some, rawStatus_data, this.1, this.2]
+              cases relatedUnmarshalable s rid <;> simp
+          | many rids =>
+            simp only
+            have := getResources_spec s rids
+            cases hg : getResources s rids with
+            | error e => simp only [hg] at this; simp [rawStatus_err, this]
+            | ok d =>
+              simp only [hg] at this
+              simp only [Option.getD_some, rawStatus_data, this.1, this.2]
+              cases rids.any (relatedUnmarshalable s) <;> simp
+
+/-- PATCH on the related-resource route. -/
+theorem updateRelated_status (s : Schema) (r : Req) (t : TypeDef) (id : RId) (name : String)
+    (hg : (r.method == "GET") = false) (hm : (r.method == "PATCH") = true) :
+    ((relatedRoute s r t id name).getD NF).rawStatus =
+      withRelationship t t.get id.id name (updateRelatedStatus s r.body) := by
+  unfold relatedRoute withRelationship TypeDef.getRelationship
+  simp only [hg, hm, if_true, Bool.false_eq_true, if_false]
+  cases t.get with
+  | none => simp [rawStatus_err, errStatus, errorForHTTPStatus]
+  | some g =>
+    simp only
+    cases g id.id with
+    | error e => simp [rawStatus_err]
+    | nil => simp [rawStatus_NF]
+    | found =>
+      simp only [completeRelationship_cases]
+      cases t.rels.lookup name with
+      | none => simp [rawStatus_NF]
+      | some d =>
+        simp only [updateRelatedStatus]
+        cases requestedLinkage d with
+        | error e => simp [rawStatus_err]
+        | ok l =>
+          cases l with
+          | null => simp [rawStatus_NF]
+          | many rids => simp [rawStatus_NF]
+          | one rid =>
+            simp only
+            cases s.lookup rid.type with
+            | none => simp [rawStatus_NF]
+            | some rt => simp only [patch_status]
+
+theorem createRoute_status (r : Req) (ty : String) (t : TypeDef) :
+    ((createRoute r ty t).getD NF).rawStatus = createStatus t r.body ty := by
+  unfold createStatus
+  unfold createRoute
+  cases r.body.postRes with
+  | none => simp [rawStatus_status]
+  | some bty =>
+    simp only
+    by_cases hb : bty = ty
+    · simp only [hb, bne_self_eq_false, Bool.false_eq_true, if_false, ne_eq, not_true_eq_false]
+      unfold TypeDef.createRes
+      cases t.create with
+      | none => simp [rawStatus_err, errStatus, errorForHTTPStatus]
+      | some c =>
+        cases c with
+        | error e => simp [rawStatus_err]
+        | nil => simp [rawStatus_NF]
+        | created id =>
+          simp only
+          have hc := complete_spec t id
+          unfold sendResource
+          split at hc
+          · rename_i e he; simp [hc, rawStatus_err, he]
+          · rename_i he
+            obtain ⟨res, hres, _, _, hm, _⟩ := hc
+            simp only [hres, Option.getD_some, rawStatus_resource, hm, he]
+            cases hasUnmarshalable t <;> simp
+    · have : (bty != ty) = true := by simpa using hb
+      simp [this, hb, rawStatus_status]
+
+theorem resourceRoute_status (r : Req) (t : TypeDef) (id : RId) :
+    ((resourceRoute r t id).getD NF).rawStatus =
+      if r.method == "GET" then Spec.viaHandler t t.get id.id
+      else if r.method == "PATCH" then resourceBody r.body id (Spec.viaHandler t t.patch id.id)
+      else if r.method == "DELETE" then deleteStatus t id.id
+      else 405 := by
+  unfold deleteStatus
+  unfold resourceRoute
+  by_cases hg : (r.method == "GET") = true
+  · simp only [hg, if_true]
+    have := via_status t t.get id
+      (fun res => { doc := { data := some (.resource res), links := [("self", r.urlPath)] } })
+      (fun res => by rw [rawStatus_resource]; simp)
+    rw [← this]
+    unfold TypeDef.getRes
+    cases t.viaHandler t.get id with
+    | error e => rfl
+    | ok o => cases o <;> rfl
+  · simp only [hg]
+    by_cases hp : (r.method == "PATCH") = true
+    · simp only [hp, if_true]
+      exact patch_status r t id
+    · simp only [hp]
+      by_cases hd : (r.method == "DELETE") = true
+      · simp only [hd, if_true]
+        unfold TypeDef.deleteRes
+        cases t.delete with
+        | none => simp [rawStatus_err, errStatus, errorForHTTPStatus]
+        | some f =>
+          simp only
+          cases f id.id with
+          | none => simp [Response.rawStatus, Doc.marshalable]
+          | some e => simp [rawStatus_err]
+      · simp [hd, rawStatus_status]
+
+theorem relatedRoute_status (s : Schema) (r : Req) (t : TypeDef) (id : RId) (name : String) :
+    ((relatedRoute s r t id name).getD NF).rawStatus =
+      if r.method == "GET" then withRelationship t t.get id.id name (fetchRelatedStatus s)
+      else if r.method == "PATCH" then withRelationship t t.get id.id name (updateRelatedStatus s r.body)
+      else 405 := by
+  by_cases hg : (r.method == "GET") = true
+  · simp only [hg, if_true]; exact fetchRelated_status s r t id name hg
+  · have hg' : (r.method == "GET") = false := by simpa using hg
+    simp only [hg', Bool.false_eq_true, if_false]
+    by_cases hp : (r.method == "PATCH") = true
+    · simp only [hp, if_true]; exact updateRelated_status s r t id name hg' hp
+    · simp [relatedRoute, hg', hp, rawStatus_status]
+
+theorem relationshipRoute_status (r : Req) (t : TypeDef) (id : RId) (name : String) :
+    ((relationshipRoute r t id name).getD NF).rawStatus =
+      if r.method == "GET" then withRelationship t t.get id.id name linkageStatus
+      else if r.method == "PATCH" then
+        (if !r.body.relData then 400 else withRelationship t t.patch id.id name linkageStatus)
+      else if r.method == "POST" then
+        (if !r.body.members then 400 else withRelationship t t.get id.id name addStatus)
+      else if r.method == "DELETE" then
+        (if !r.body.members then 400 else withRelationship t t.get id.id name removeStatus)
+      else 405 := by
+  unfold relationshipRoute
+  by_cases hg : (r.method == "GET") = true
+  · simp only [hg, if_true]
+    exact locate_status t t.get id name
+  · simp only [hg]
+    by_cases hp : (r.method == "PATCH") = true
+    · simp only [hp, if_true]
+      cases r.body.relData with
+      | false => simp [rawStatus_status]
+      | true =>
+        simp only [Bool.not_true, Bool.false_eq_true, if_false]
+        exact locate_status t t.patch id name
+    · simp only [hp]
+      by_cases ho : (r.method == "POST") = true
+      · simp only [ho, if_true]
+        cases r.body.members with
+        | false => simp [rawStatus_status]
+        | true =>
+          simp only [Bool.not_true, Bool.false_eq_true, if_false]
+          apply members_status
+          intro d
+          cases d with
+          | toOne b o => simp [addRelationshipMembers, addStatus, errStatus, errorForHTTPStatus]
+          | toMany b o a rm => exact membersResult_status a
+      · simp only [ho]
+        by_cases hd : (r.method == "DELETE") = true
+        · simp only [hd, if_true]
+          cases r.body.members with
+          | false => simp [rawStatus_status]
+          | true =>
+            simp only [Bool.not_true, Bool.false_eq_true, if_false]
+            apply members_status
+            intro d
+            cases d with
+            | toOne b o => simp [removeRelationshipMembers, removeStatus, errStatus, errorForHTTPStatus]
+            | toMany b o a rm => exact membersResult_status rm
+        · simp [hd, rawStatus_status]
+
+theorem classify_unknown_type (known : String → Bool) (m ty : String) (rest : List String)
+    (hk : known ty = false) : classify known m (ty :: rest) = .unknown := by
+  cases rest with
+  | nil => simp [classify, hk]
+  | cons a r1 =>
+    cases r1 with
+    | nil => simp [classify, hk]
+    | cons b r2 =>
+      cases r2 with
+      | nil => simp [classify, hk]
+      | cons c r3 =>
+        cases r3 with
+        | nil => by_cases hb : b = "relationships" <;> simp [classify, hk, hb]
+        | cons d r4 => simp [classify]
+
+/-- The router against the rule list: routing by type, depth and method. -/
+theorem route_status (s : Schema) (r : Req) :
+    ((route s r).getD NF).rawStatus =
+      opStatus s r.body (fun ty => s.lookup ty)
+        (classify (fun ty => (s.lookup ty).isSome) r.method r.path) := by
+  unfold route
+  cases hp : r.path with
+  | nil => simp [classify, opStatus, rawStatus_NF]
+  | cons ty rest =>
+    simp only
+    cases ht : s.lookup ty with
+    | none =>
+      rw [classify_unknown_type _ _ _ _ (by simp [ht])]
+      simp [opStatus, rawStatus_NF]
+    | some t =>
+      simp only
+      cases rest with
+      | nil =>
+        cases hm : (r.method == "POST") with
+        | true =>
+          simp only [if_true, classify, ht, Option.isSome_some, Bool.and_self, opStatus, hm]
+          rw [createRoute_status]
+        | false => simp [hm, classify, opStatus, rawStatus_NF]
+      | cons id rest2 =>
+        cases rest2 with
+        | nil =>
+          simp only [resourceRoute_status, classify, ht, Option.isSome_some, Bool.not_true, Bool.false_eq_true, if_false]
+          cases hg : (r.method == "GET") with
+          | true => simp [opStatus, ht]
+          | false =>
+            cases hpa : (r.method == "PATCH") with
+            | true =>
+              simp only [if_true, Bool.false_eq_true, if_false, opStatus, ht]
+            | false =>
+              cases hd : (r.method == "DELETE") with
+              | true => simp [opStatus, ht]
+              | false => simp [opStatus]
+        | cons name rest3 =>
+          cases rest3 with
+          | nil =>
+            simp only [relatedRoute_status, classify, ht, Option.isSome_some, Bool.not_true, Bool.false_eq_true, if_false]
+            cases hg : (r.method == "GET") with
+            | true => simp [opStatus, ht]
+            | false =>
+              cases hpa : (r.method == "PATCH") with
+              | true => simp [opStatus, ht]
+              | false => simp [opStatus]
+          | cons name2 rest4 =>
+            cases rest4 with
+            | nil =>
+              by_cases hrel : name = "relationships"
+              · subst hrel
+                simp only [beq_self_eq_true, if_true, relationshipRoute_status, classify, ht, Option.isSome_some,
+                  Bool.not_true, Bool.false_eq_true, if_false, ne_eq, not_true_eq_false]
+                cases hg : (r.method == "GET") with
+                | true => simp [opStatus, ht]
+                | false =>
+                  cases hpa : (r.method == "PATCH") with
+                  | true => simp [opStatus, ht]
+                  | false =>
+                    cases ho : (r.method == "POST") with
+                    | true => simp [opStatus, ht]
+                    | false =>
+                      cases hd : (r.method == "DELETE") with
+                      | true => simp [opStatus, ht]
+                      | false => simp [opStatus]
+              · have hrel' : (name == "relationships") = false := by simpa using hrel
+                simp [hrel', hrel, classify, opStatus, rawStatus_NF]
+            | cons c rest5 => simp [classify, opStatus, rawStatus_NF]
+
+/-- **The router's status is RefStatus** (before the range check of `WriteHeader`). -/
+theorem executeRequest_status (s : Schema) (r : Req) :
+    (executeRequest s r).rawStatus = refStatus s r := by
+  unfold executeRequest refStatus
+  rw [isAcceptable_eq, query_check_eq]
+  by_cases ha : acceptable r.accept = true
+  · simp only [ha, Bool.not_true, Bool.false_eq_true, if_false]
+    by_cases hq : r.query.all supportedKey = true
+    · simp only [hq, Bool.not_true, Bool.false_eq_true, if_false]
+      exact route_status s r
+    · simp [hq, rawStatus_status]
+  · simp [ha, rawStatus_status]
+
 end ApiFu.C19
